@@ -38,16 +38,23 @@ def DocBase (fuzzy : Bool) (name b : Str) : Prop :=
   (fuzzy = true ∧ (b = upper (name ++ dashMib) ∨ b = lower (name ++ dashMib) ∨
     ∃ c ∈ cands name, ∃ c' ∈ cands name, ∃ k, b = c.take k ∧ startsWith (c'.drop k) dashMib = true))
 
-theorem fs_sub_cands (o : Opts) (name : Str) :
-    ∀ x ∈ (if o.original then [name] else []) ++ (if o.uppercase then [upper name] else []) ++
-            (if o.lowcase then [lower name] else []), x ∈ cands name := by
+theorem fs_sub_cands (o : Opts) (name : Str) : ∀ x ∈ spellings o name, x ∈ cands name := by
   intro x hx
+  unfold spellings at hx
   simp only [List.mem_append] at hx
   unfold cands
   rcases hx with (hx | hx) | hx
   · split at hx <;> simp_all
   · split at hx <;> simp_all
   · split at hx <;> simp_all
+
+/-- **C14_variants_total**: for every setting of the switches the variant list exists (no IndexError: the state of
+the code before repair 634cb10 with all three spellings off and fuzzy matching on). -/
+theorem C14_variants_total (o : Opts) (name : Str) : (variants o name).isSome = true := by
+  unfold variants baseNames
+  simp only
+  cases o.fuzzy <;> simp
+  cases find (lower name) dashMib <;> simp
 
 /-- **C14_variants_sound**: for every setting of the three matching switches and fuzzy on/off, every
 file name the reader tries is a documented variant of the requested name plus a configured
@@ -73,26 +80,71 @@ theorem C14_variants_sound (o : Opts) (name : Str) (vs : List (Str × Str)) (h :
       exact Or.inl (fs_sub_cands o name x hx)
     | true =>
       simp only [hf, if_true] at hb
+      have hlc : lower name ∈ cands name := by simp [cands]
       split at hb
-      · simp at hb
-      · rename_i last hlast
-        have hlc : last ∈ cands name := fs_sub_cands o name last (List.mem_of_getLast? hlast)
-        split at hb
-        · rename_i part hpart
-          injection hb with hb; subst hb
-          rcases List.mem_append.mp hx with hx | hx
-          · exact Or.inl (fs_sub_cands o name x hx)
-          · simp only [List.mem_map] at hx
-            obtain ⟨c, hc, rfl⟩ := hx
-            exact Or.inr ⟨rfl, Or.inr (Or.inr ⟨c, fs_sub_cands o name c hc, last, hlc, part, rfl,
-              find_spec last dashMib part hpart⟩)⟩
-        · injection hb with hb; subst hb
-          rcases List.mem_append.mp hx with hx | hx
-          · exact Or.inl (fs_sub_cands o name x hx)
-          · simp only [List.mem_cons, List.mem_nil_iff, or_false] at hx
-            rcases hx with hx | hx
-            · exact Or.inr ⟨rfl, Or.inl hx⟩
-            · exact Or.inr ⟨rfl, Or.inr (Or.inl hx)⟩
+      · rename_i part hpart
+        injection hb with hb; subst hb
+        rcases List.mem_append.mp hx with hx | hx
+        · exact Or.inl (fs_sub_cands o name x hx)
+        · simp only [List.mem_map] at hx
+          obtain ⟨c, hc, rfl⟩ := hx
+          exact Or.inr ⟨rfl, Or.inr (Or.inr ⟨c, fs_sub_cands o name c hc, lower name, hlc, part, rfl,
+            find_spec (lower name) dashMib part hpart⟩)⟩
+      · injection hb with hb; subst hb
+        rcases List.mem_append.mp hx with hx | hx
+        · exact Or.inl (fs_sub_cands o name x hx)
+        · simp only [List.mem_cons, List.mem_nil_iff, or_false] at hx
+          rcases hx with hx | hx
+          · exact Or.inr ⟨rfl, Or.inl hx⟩
+          · exact Or.inr ⟨rfl, Or.inr (Or.inl hx)⟩
+
+/-- **C14_variants_complete_all** (every setting of the switches): every spelling that is switched on is tried with
+every extension; with fuzzy matching, additionally the `-MIB` / `-mib` suffixed names when the lower-case name has
+no `-mib`, and every switched-on spelling cut at that position when it has. -/
+theorem C14_variants_complete_all (o : Opts) (name : Str) (vs : List (Str × Str)) (h : variants o name = some vs) :
+      (∀ b ∈ spellings o name, ∀ ext ∈ o.exts, (b, b ++ ext) ∈ vs) ∧
+      (o.fuzzy = true → find (lower name) dashMib = none →
+        ∀ ext ∈ o.exts, (upper (name ++ dashMib), upper (name ++ dashMib) ++ ext) ∈ vs ∧
+                        (lower (name ++ dashMib), lower (name ++ dashMib) ++ ext) ∈ vs) ∧
+      (o.fuzzy = true → ∀ k, find (lower name) dashMib = some k →
+        ∀ b ∈ spellings o name, ∀ ext ∈ o.exts, (b.take k, b.take k ++ ext) ∈ vs) := by
+  unfold variants baseNames at h
+  simp only at h
+  cases hfz : o.fuzzy with
+  | false =>
+    simp only [hfz, Bool.false_eq_true, if_false, Option.map_some, Option.some.injEq] at h
+    subst h
+    refine ⟨?_, by simp, by simp⟩
+    intro b hb ext hext
+    simp only [List.mem_flatMap, List.mem_map]
+    exact ⟨b, hb, ext, hext, rfl⟩
+  | true =>
+    simp only [hfz, if_true] at h
+    cases hf : find (lower name) dashMib with
+    | none =>
+      simp only [hf, Option.map_some, Option.some.injEq] at h
+      subst h
+      refine ⟨?_, ?_, by simp⟩
+      · intro b hb ext hext
+        simp only [List.mem_flatMap, List.mem_map]
+        exact ⟨b, List.mem_append_left _ hb, ext, hext, rfl⟩
+      · intro _ _ ext hext
+        constructor
+        · simp only [List.mem_flatMap, List.mem_map]
+          exact ⟨_, List.mem_append_right _ (by simp), ext, hext, rfl⟩
+        · simp only [List.mem_flatMap, List.mem_map]
+          exact ⟨_, List.mem_append_right _ (by simp), ext, hext, rfl⟩
+    | some k =>
+      simp only [hf, Option.map_some, Option.some.injEq] at h
+      subst h
+      refine ⟨?_, by simp, ?_⟩
+      · intro b hb ext hext
+        simp only [List.mem_flatMap, List.mem_map]
+        exact ⟨b, List.mem_append_left _ hb, ext, hext, rfl⟩
+      · intro _ k' hk' b hb ext hext
+        injection hk' with hk'; subst hk'
+        simp only [List.mem_flatMap, List.mem_map]
+        exact ⟨b.take k, List.mem_append_right _ (List.mem_map.mpr ⟨b, hb, rfl⟩), ext, hext, rfl⟩
 
 /-- **C14_variants_complete** (default switches: all three spellings on): every spelling with every
 extension is tried; with fuzzy matching, additionally the `-MIB`/`-mib` suffixed names when the
@@ -105,43 +157,15 @@ theorem C14_variants_complete (fuzzy : Bool) (exts : List Str) (name : Str) (vs 
                       (lower (name ++ dashMib), lower (name ++ dashMib) ++ ext) ∈ vs) ∧
       (fuzzy = true → ∀ k, find (lower name) dashMib = some k →
         ∀ b ∈ cands name, ∀ ext ∈ exts, (b.take k, b.take k ++ ext) ∈ vs) := by
-  cases fuzzy with
-  | false =>
-    simp only [variants, baseNames, Bool.false_eq_true, if_false, if_true, Option.map_some,
-      Option.some.injEq] at h
-    subst h
-    refine ⟨?_, by simp, by simp⟩
-    intro b hb ext hext
-    simp only [List.mem_flatMap, List.mem_map]
-    exact ⟨b, by simpa [cands] using hb, ext, hext, rfl⟩
-  | true =>
-    cases hf : find (lower name) dashMib with
-    | none =>
-      simp [variants, baseNames, hf] at h
-      subst h
-      refine ⟨?_, ?_, by simp⟩
-      · intro b hb ext hext
-        simp [cands] at hb
-        rcases hb with rfl | rfl | rfl <;> simp [hext]
-      · intro _ _ ext hext
-        simp [hext]
-    | some k =>
-      simp [variants, baseNames, hf] at h
-      subst h
-      refine ⟨?_, by simp, ?_⟩
-      · intro b hb ext hext
-        simp [cands] at hb
-        rcases hb with rfl | rfl | rfl <;> simp [hext]
-      · intro _ k' hk' b hb ext hext
-        injection hk' with hk'; subst hk'
-        simp [cands] at hb
-        rcases hb with rfl | rfl | rfl <;> simp [hext]
+  have hs : spellings { fuzzy := fuzzy, exts := exts } name = cands name := by simp [spellings, cands]
+  have := C14_variants_complete_all { fuzzy := fuzzy, exts := exts } name vs h
+  rw [hs] at this
+  exact this
 
-/-- with the default switches the variant list always exists (no IndexError) -/
+/-- with the default switches the variant list always exists -/
 theorem C14_variants_default_total (fuzzy : Bool) (exts : List Str) (name : Str) :
-    (variants { fuzzy := fuzzy, exts := exts } name).isSome = true := by
-  cases fuzzy <;> simp [variants, baseNames]
-  cases find (lower name) dashMib <;> simp
+    (variants { fuzzy := fuzzy, exts := exts } name).isSome = true :=
+  C14_variants_total _ name
 
 /-- **C14_index_precedence**: an `.index` entry for the name is the only file tried. -/
 theorem C14_index_precedence (o : Opts) (index : List (Str × Str)) (name file : Str)
